@@ -424,7 +424,7 @@ fn c04_case(ops: &Vec<SOp>) -> CaseResult {
 
 pub fn c04(ctx: &mut Ctx) {
     ctx.rule = "storage programs (insert, insert_at inside / at the end / beyond the end, replace larger/smaller/equal/empty, resize, move_at overlapping both directions and zero size, remove, optimize, reopen; sizes around the 16-byte record header; 5% operations on dead indexes or out of range that must be rejected without effect) executed on MemoryStorage, FileStorage and FileStorageMemoryMapped through the VerifStorage wrapper, in lock-step with a reference map index->bytes: after every step every live index reads back exactly (value_as_bytes, value_size), dead indexes are errors, fresh indexes are not live; after optimize len() == empty + sum(16 + size(live)). evaluations = programs x 3 back-ends. Non-trivial: the program reuses a freed region AND has an optimize or reopen after a removal. Distinct = hash of the program.".into();
-    let cases = ctx.tier.pick(2500, 60_000);
+    let cases = ctx.tier.pick(15_000, 150_000);
     let max = ctx.tier.pick(60usize, 400usize);
     replay_saved::<Vec<SOp>, _>(ctx, "c04-storage", c04_case);
     run_campaign(
@@ -788,7 +788,7 @@ pub fn c01(ctx: &mut Ctx) {
     ctx.level = "fault_enumeration".into();
     ctx.rule = "storage programs (insert, insert_at, replace, resize, move_at incl. zero size, remove, optimize) grouped into arbitrarily nested explicit transactions (depth <=3), ending in a clean close or a drop with unfinished transactions, on FileStorage and FileStorageMemoryMapped. A hook fires before every mutating file-system call of the data file and the recovery log; at each such event the engine copies both files (the crash image), recovers the image with the real open path and compares every live record, every dead index and the file length with the reference state of the last outermost commit before that event (commit point = the event that truncates the log); recovery is repeated (idempotence, empty log); for log appends the log is additionally cut inside the record being appended (torn images); thorough also crashes during recovery itself. Quick: all events for programs with <=80 events, else a stratified sample. evaluations = images recovered. Non-trivial: the image has a non-empty recovery log (recovery has work to do). Distinct = hash of the image bytes.".into();
     let thorough = ctx.tier == Tier::Thorough;
-    let cases = ctx.tier.pick(500, 8_000);
+    let cases = ctx.tier.pick(1500, 12_000);
     let max_ops = ctx.tier.pick(14usize, 40usize);
     replay_saved::<CrashProgram, _>(ctx, "c01-crash", |c| c01_case_with(c, true, true));
     run_campaign(
